@@ -540,13 +540,14 @@ def rule_primitives(ctx):
             forgets = [e for e in p.events if e.kind == "call" and e.ntarget == "std::mem::forget"]
             drops = [e for e in p.events if e.kind == "drop" and e.adt in OWNER_SIDE]
             if name.endswith("from_raw"):
+                # exactly the argument: the word carries the tag (and the epoch bits), which `pclass` would ignore
                 ok = (not cnt and not forgets and isinstance(p.ret, tuple) and p.ret[0] == "agg"
-                      and pclass(p.ret[3][0]) == ("arg", 1, b.local_name(1)))
-                what = "from_raw must build the owner from its argument and nothing else"
+                      and strip(p.ret[3][0]) == ("arg", 1, b.local_name(1)))
+                what = "from_raw must build the owner from exactly its argument (pointer, tag and all) and nothing else"
             else:
                 ok = (not cnt and len(forgets) == 1 and not drops and strip(forgets[0].args[0]) == ("arg", 1, b.local_name(1))
-                      and pclass(p.ret) == ("field", "ptr", ("arg", 1, b.local_name(1))))
-                what = "into_raw must forget(self) exactly once, drop nothing and return self.ptr"
+                      and strip(p.ret) == ("field", "ptr", ("arg", 1, b.local_name(1))))
+                what = "into_raw must forget(self) exactly once, drop nothing and return exactly self.ptr (tag included)"
             r.instance("%s: %s" % (name, why), ok)
             if not ok:
                 r.violate(name, "primitive", what, b.loc(0))
